@@ -740,7 +740,11 @@ def c10(case, F):
         if not before or not after or before.get("snap_err") or after.get("snap_err"):
             continue
         new = (c["a"].get("kw") or {}).get("max_workers")
-        if new is None or before.get("max_workers") == new:
+        if new is None:
+            continue
+        if before.get("max_workers") == new and not (c["a"].get("retry") and (before.get("timeout") is None or before.get("timeout") >= 50)):
+            # nothing to resize - except for the retry of an interrupted resize on a pool whose workers cannot idle out:
+            # there the requested count must be reached whatever the attribute said before the call
             continue
         if after.get("max_workers") != new:
             v.append((_sig(case, F, "max_workers_not_updated"), witness_text(case, F, "after the resize _max_workers=%s, requested %s" % (after.get("max_workers"), new))))
